@@ -156,3 +156,66 @@ Corollary load_fuel_enough fmts fs path cid k :
 Proof.
   apply load_fuel_irrelevant; [constructor|intros x []| |]; rewrite map_length; cbn [List.length]; lia.
 Qed.
+
+(* ---- a filename chain of any length loads base first ---- *)
+Definition mkid (cid : option string) (path : string) : string :=
+  match cid with Some c => (c ++ "|" ++ path)%string | None => path end.
+
+(* one layer of a chain: a supported, readable file without a $parent directive whose filename parent is [next] *)
+Definition layer_step (fmts : list string) (fs : fsys) (path : string) (docs' : list value) (next : option string) : Prop :=
+  supported fmts (ext path) = true /\
+  exists real docs, resolve (link_fuel fs) fs path = Some (real, Ok docs) /\
+                    parent_directive docs = Ok (docs', [], false) /\
+                    parents_from_filename fmts fs real = Ok (match next with Some p => [p] | None => [] end).
+
+Definition next_of (rest : list (string * list value)) : option string :=
+  match rest with [] => None | (p, _) :: _ => Some p end.
+
+Fixpoint linked (fmts : list string) (fs : fsys) (layers : list (string * list value)) : Prop :=
+  match layers with
+  | [] => True
+  | (path, docs') :: rest => layer_step fmts fs path docs' (next_of rest) /\ linked fmts fs rest
+  end.
+
+(* what loading the top of the chain returns: the layers bottom-up, each naming the one below it as its parent file *)
+Fixpoint expected (cid : option string) (layers : list (string * list value)) : list lfile :=
+  match layers with
+  | [] => []
+  | (path, docs') :: rest =>
+      let id := mkid cid path in
+      expected (Some id) rest ++
+      [{| lf_id := id; lf_docs := docs';
+          lf_parent_files := match rest with [] => [] | (p, _) :: _ => [mkid (Some id) p] end |}]
+  end.
+
+Lemma expected_last cid path docs' rest :
+  exists l x, expected cid ((path, docs') :: rest) = l ++ [x] /\ lf_id x = mkid cid path.
+Proof. cbn [expected]. eexists; eexists; split; reflexivity. Qed.
+
+Theorem chain_loads fmts fs : forall layers fuel cid chain top docs' rest,
+  layers = (top, docs') :: rest -> linked fmts fs layers -> NoDup (map fst layers) ->
+  (forall p, In p (map fst layers) -> ~ In p chain) -> List.length layers <= fuel ->
+  load_chain fuel fmts fs top cid chain = Ok (expected cid layers).
+Proof.
+  induction layers as [|[p0 d0] tl IH]; intros fuel cid chain top docs' rest E Hl ND Hc Hf; [discriminate|].
+  inversion E; subst p0 d0 tl. clear E.
+  destruct fuel as [|f]; [cbn in Hf; lia|].
+  cbn [linked] in Hl. destruct Hl as [(Hsup & real & docs & Hres & Hpd & Hpf) Hrest].
+  cbn [load_chain].
+  assert (Hnc : existsb (String.eqb top) chain = false).
+  { destruct (existsb (String.eqb top) chain) eqn:Ex; [|reflexivity]. exfalso.
+    apply existsb_exists in Ex as (x & Hx & Hxe). apply String.eqb_eq in Hxe. subst x.
+    apply (Hc top); [now left|exact Hx]. }
+  rewrite Hnc, Hsup. cbn [negb]. rewrite Hres.
+  rewrite (parents_filename fmts fs top docs docs' real (Ok docs) Hpd Hres), Hpf. cbn [bind].
+  destruct rest as [|[p1 d1] rest'].
+  - cbn [next_of map_res bind concat app expected map rev]. fold (mkid cid top). reflexivity.
+  - cbn [next_of map_res bind]. fold (mkid cid top).
+    inversion ND as [|? ? Hn1 ND']; subst.
+    rewrite (IH f (Some (mkid cid top)) (top :: chain) p1 d1 rest' eq_refl Hrest ND').
+    + cbn [bind concat app map]. destruct (expected_last (Some (mkid cid top)) p1 d1 rest') as (l & x & El & Ex).
+      rewrite El at 2. rewrite rev_app_distr. cbn [rev app]. rewrite Ex.
+      rewrite app_nil_r. reflexivity.
+    + intros p Hp [Hpt|Hpc]; [subst p; exact (Hn1 Hp)|]. apply (Hc p); [now right|exact Hpc].
+    + cbn [List.length] in Hf |- *. lia.
+Qed.
